@@ -185,6 +185,16 @@ func buildOps() []hop {
 			return fmt.Sprintf("%x|%s", b, errStr(err)), nil
 		}, fmt.Sprintf("%x|<nil>", wb)})
 	}
+	// a caller that decodes the very secret the other operations use and then WIPES what it was given (key hygiene):
+	// the bytes are the caller's, nothing the library keeps may alias them
+	ops = append(ops, hop{"decode-and-wipe", func() (string, []string) {
+		b, err := otp.DecodeSecret(hopSec)
+		obs := fmt.Sprintf("%x|%s", b, errStr(err))
+		for i := range b {
+			b[i] = 0
+		}
+		return obs, nil
+	}, fmt.Sprintf("%x|<nil>", hopKey)})
 	ops = append(ops, hop{"decode-secret-bad", func() (string, []string) {
 		_, err := otp.DecodeSecret("MZXW6YTB0")
 		return fmt.Sprint(err != nil), nil
